@@ -315,6 +315,16 @@ fn smart_case_insensitive(pattern: &str) -> Option<bool> {
 /// The specification of what the user asked for, as an HIR over a line's
 /// content (terminator removed), written from the flag documentation.
 pub fn spec_hir(patterns: &[&str], o: &Opts) -> Result<(Hir, String), String> {
+    spec_hir_with(patterns, o, true)
+}
+
+/// `nul_anchors_at_lf`: with NUL as the line terminator, do `^` / `$` (and the
+/// -x wrapper) still anchor at `\n` inside a record (what the regex flags
+/// alone say, and what the implementation does), or only at the record's own
+/// boundaries (what "line anchors" mean once the lines are NUL-terminated)?
+/// The latter is the documented reading used by C01; the former is the
+/// counterfactual switch of known finding `null-data-anchors-match-at-line-feed`.
+pub fn spec_hir_with(patterns: &[&str], o: &Opts, nul_anchors_at_lf: bool) -> Result<(Hir, String), String> {
     // (returns the HIR and the specification's regex text)
     let alts: Vec<String> = patterns
         .iter()
@@ -344,7 +354,9 @@ pub fn spec_hir(patterns: &[&str], o: &Opts) -> Result<(Hir, String), String> {
     };
     let hir = regex_syntax::ParserBuilder::new()
         .utf8(false)
-        .multi_line(true)
+        // (the specification is evaluated on one line's content at a time, so
+        // "anchored at the record boundaries only" is "not multi-line")
+        .multi_line(o.lt != Lt::Nul || nul_anchors_at_lf)
         .unicode(o.unicode)
         .case_insensitive(ci)
         .crlf(o.lt == Lt::Crlf)
